@@ -151,8 +151,8 @@ package asm
 //@ func (*Emitter).Finalize
 //@   property C06
 //@   requires !isnil(a.code) && len(a.code) <= 0x1000000
-//@   requires all(l, string, all(i, int, has(a.danglingS8, l) && 0 <= i && i < len(a.danglingS8[l]) ==> a.danglingS8[l][i] >= a.base && a.danglingS8[l][i]-a.base < uint32(len(a.code))))
-//@   requires all(l, string, all(i, int, has(a.danglingU16, l) && 0 <= i && i < len(a.danglingU16[l]) ==> a.danglingU16[l][i] >= a.base && a.danglingU16[l][i]-a.base < uint32(len(a.code)) && a.danglingU16[l][i]-a.base+1 < uint32(len(a.code)) && a.danglingU16[l][i]-a.base+1 > 0))
+//@   requires all(l, string, all(i, int, has(a.danglingS8, l) && 0 <= i && i < len(a.danglingS8[l]) ==> a.danglingS8[l][i]-a.base < uint32(len(a.code))))
+//@   requires all(l, string, all(i, int, has(a.danglingU16, l) && 0 <= i && i < len(a.danglingU16[l]) ==> a.danglingU16[l][i]-a.base < uint32(len(a.code)) && a.danglingU16[l][i]-a.base+1 < uint32(len(a.code)) && a.danglingU16[l][i]-a.base+1 > 0))
 //@   requires all(l, string, all(i, int, all(m, string, all(j, int, has(a.danglingS8, l) && has(a.danglingS8, m) && 0 <= i && i < len(a.danglingS8[l]) && 0 <= j && j < len(a.danglingS8[m]) && (l != m || i != j) ==> a.danglingS8[l][i] != a.danglingS8[m][j]))))
 //@   requires all(l, string, all(i, int, all(m, string, all(j, int, has(a.danglingU16, l) && has(a.danglingU16, m) && 0 <= i && i < len(a.danglingU16[l]) && 0 <= j && j < len(a.danglingU16[m]) && (l != m || i != j) ==> a.danglingU16[l][i] != a.danglingU16[m][j] && a.danglingU16[l][i] != a.danglingU16[m][j]+1 && a.danglingU16[l][i]+1 != a.danglingU16[m][j]))))
 //@   requires all(l, string, all(i, int, all(m, string, all(j, int, has(a.danglingS8, l) && has(a.danglingU16, m) && 0 <= i && i < len(a.danglingS8[l]) && 0 <= j && j < len(a.danglingU16[m]) ==> a.danglingS8[l][i] != a.danglingU16[m][j] && a.danglingS8[l][i] != a.danglingU16[m][j]+1))))
